@@ -196,3 +196,385 @@ def op_case_literals(op, a, b=None):
 def call_case(name, arg):
     """builtin `name` applied to the value arg (bound as x)"""
     return script("H", ["init %s %s" % (hexs("x"), arg), "ev srv %s" % hexs("%s(x)" % name)])
+
+
+# ---------------------------------------------------------------------------------------------
+# token sequences, character soup
+# ---------------------------------------------------------------------------------------------
+TOKEN_ALPHABET16 = ["1", "a", "+", "-", "*", "^", "!", "=", "+=", "(", ")", ",", ";", "==", "&&", "2.5"]
+TOKEN_ALPHABET_FULL = ["1", "a", "b", "f", "2.5", "true", '"s"', "+", "-", "*", "/", "%", "^", "==", "!=", ">", "<", ">=",
+                       "<=", "&&", "||", "!", "(", ")", "=", "+=", "-=", "*=", "/=", "%=", "^=", "&&=", "||=", ",", ";"]
+
+
+def token_sequences_exhaustive(alphabet, maxlen):
+    out = [[]]
+    frontier = [[]]
+    for _ in range(maxlen):
+        frontier = [s + [t] for s in frontier for t in alphabet]
+        out += frontier
+    return out
+
+
+def token_sequences_random(r, n, maxlen=12, alphabet=None):
+    alphabet = alphabet or TOKEN_ALPHABET_FULL
+    return [[r.choice(alphabet) for _ in range(r.randint(1, maxlen))] for _ in range(n)]
+
+
+SOUP = list("+-*/%^=!<>&|(),; \t\n\"\\/*aAeExX01239._:#") + ["ä", "€", "𝄞", "　", " ", " ", "\u0085", "inf", "nan",
+                                                               "0x", "1e", "e-", "true", "false", "//", "/*", "*/", "&&", "||"]
+
+
+def char_soup(r, n, maxlen=14):
+    return ["".join(r.choice(SOUP) for _ in range(r.randint(0, maxlen))) for _ in range(n)]
+
+
+def rand_unicode_string(r, maxlen=10):
+    def ch():
+        k = r.random()
+        if k < 0.5:
+            return chr(r.randint(32, 126))
+        if k < 0.7:
+            return r.choice('"\\/*\n\t ')
+        if k < 0.85:
+            return chr(r.choice([r.randint(0xA0, 0x7FF), r.randint(0x800, 0xD7FF), r.randint(0xE000, 0xFFFF)]))
+        return chr(r.randint(0x10000, 0x10FFFF))
+    return "".join(ch() for _ in range(r.randint(0, maxlen)))
+
+
+# ---------------------------------------------------------------------------------------------
+# expression ASTs: generation, required parentheses (the `ok` rule of Spec/Grammar.v), rendering,
+# reference tree
+# ---------------------------------------------------------------------------------------------
+# AST nodes are tuples:
+#   ("lit", text, valuetext) ("var", name) ("bin", op, l, r) ("pre", op, e) ("asg", op, name, e)
+#   ("call", f, arg) ("paren", e_or_None_or_seq) ("tuple", [elems]) ("chain", [elems])   elem may be None (absent)
+DOC_PREC = {"^": 120, "neg": 110, "!": 110, "*": 100, "/": 100, "%": 100, "+": 95, "-": 95,
+            "<": 80, ">": 80, "<=": 80, ">=": 80, "==": 80, "!=": 80, "&&": 75, "||": 70,
+            "=": 50, "+=": 50, "-=": 50, "*=": 50, "/=": 50, "%=": 50, "^=": 50, "&&=": 50, "||=": 50,
+            "call": 190}
+BIN_NAME = {"+": "Add", "-": "Sub", "*": "Mul", "/": "Div", "%": "Mod", "^": "Exp", "==": "Eq", "!=": "Neq", ">": "Gt",
+            "<": "Lt", ">=": "Geq", "<=": "Leq", "&&": "And", "||": "Or"}
+ASG_NAME = {"=": "Assign", "+=": "AddAssign", "-=": "SubAssign", "*=": "MulAssign", "/=": "DivAssign",
+            "%=": "ModAssign", "^=": "ExpAssign", "&&=": "AndAssign", "||=": "OrAssign"}
+
+
+def e_prec(e):
+    k = e[0]
+    if k in ("lit", "var", "paren"):
+        return 200
+    if k == "call":
+        return 190
+    if k == "pre":
+        return 110
+    if k == "bin":
+        return DOC_PREC[e[1]]
+    if k == "asg":
+        return 50
+    raise ValueError(k)
+
+
+def e_rtl(e):
+    return e[0] == "call" or (e[0] == "asg" and e[1] == "=")
+
+
+def f_prec(f):
+    return DOC_PREC[f]
+
+
+def f_rtl(f):
+    return f in ("=", "call")
+
+
+def below_f(f, e):
+    """frame operator f binds weaker than expression e's top construct"""
+    return f_prec(f) < e_prec(e) or (f_prec(f) == e_prec(e) and f_rtl(f) and e_rtl(e))
+
+
+def below_e(l, o):
+    """expression l binds weaker than the binary operator o"""
+    return e_prec(l) < DOC_PREC[o] or (e_prec(l) == DOC_PREC[o] and e_rtl(l) and f_rtl(o))
+
+
+def e_key(e):
+    return {"bin": lambda: e[1], "pre": lambda: "neg" if e[1] == "-" else "!", "asg": lambda: e[1], "call": lambda: "call"}[e[0]]()
+
+
+def ok(F, e):
+    k = e[0]
+    if k in ("lit", "var"):
+        return True
+    if k == "paren":
+        return e[1] is None or ok_seq(e[1])
+    if k == "pre":
+        return ok(F + [e_key(e)], e[2])
+    if k == "call":
+        return e[2][0] in ("lit", "var", "paren", "call") and ok(F + ["call"], e[2])
+    if k == "bin":
+        return ok(F, e[2]) and all(below_f(f, e) for f in F) and not below_e(e[2], e[1]) and ok(F + [e[1]], e[3])
+    if k == "asg":
+        return all(below_f(f, e) for f in F) and ok(F + [e[1]], e[3])
+    return False
+
+
+def ok_seq(s):
+    if s[0] == "chain":
+        return all(x is None or (ok_seq(x) if x[0] == "tuple" else ok([], x)) for x in s[1])
+    if s[0] == "tuple":
+        return all(x is None or ok([], x) for x in s[1])
+    return ok([], s)
+
+
+def parenthesize(e, F=None):
+    """inserts exactly the parentheses the table requires"""
+    F = F or []
+    k = e[0]
+    if k in ("lit", "var"):
+        return e
+    if k == "paren":
+        return ("paren", None if e[1] is None else parenthesize_seq(e[1]))
+    if k == "pre":
+        return ("pre", e[1], parenthesize(e[2], F + [e_key(e)]))
+    if k == "call":
+        a = e[2]
+        if a[0] not in ("lit", "var", "paren", "call"):
+            a = ("paren", a)
+        return ("call", e[1], parenthesize(a, F + ["call"]))
+    if k == "bin":
+        if not all(below_f(f, e) for f in F):
+            return ("paren", parenthesize(e, []))
+        l = parenthesize(e[2], F)
+        if below_e(l, e[1]):
+            l = ("paren", parenthesize(e[2], []))
+        return ("bin", e[1], l, parenthesize(e[3], F + [e[1]]))
+    if k == "asg":
+        if not all(below_f(f, e) for f in F):
+            return ("paren", parenthesize(e, []))
+        return ("asg", e[1], e[2], parenthesize(e[3], F + [e[1]]))
+    if k in ("tuple", "chain"):
+        return ("paren", parenthesize_seq(e))
+    raise ValueError(k)
+
+
+def parenthesize_seq(s):
+    if s[0] == "chain":
+        return ("chain", [None if x is None else (parenthesize_seq(x) if x[0] == "tuple" else parenthesize(x)) for x in s[1]])
+    if s[0] == "tuple":
+        return ("tuple", [None if x is None else parenthesize(x) for x in s[1]])
+    return parenthesize(s)
+
+
+def flatten(e):
+    """token texts, in order"""
+    k = e[0]
+    if k == "lit":
+        return [e[1]]
+    if k == "var":
+        return [e[1]]
+    if k == "paren":
+        return ["("] + ([] if e[1] is None else flatten(e[1])) + [")"]
+    if k == "pre":
+        return [e[1]] + flatten(e[2])
+    if k == "call":
+        return [e[1]] + flatten(e[2])
+    if k == "bin":
+        return flatten(e[2]) + [e[1]] + flatten(e[3])
+    if k == "asg":
+        return [e[2], e[1]] + flatten(e[3])
+    if k in ("tuple", "chain"):
+        sep = "," if k == "tuple" else ";"
+        out = []
+        for i, x in enumerate(e[1]):
+            if i:
+                out.append(sep)
+            if x is not None:
+                out += flatten(x)
+        return out
+    raise ValueError(k)
+
+
+def tree_of(e):
+    """reference tree text of an expression (without the outermost RootNode)"""
+    k = e[0]
+    if k == "lit":
+        return "(Const:%s)" % e[2]
+    if k == "var":
+        return "(Read:%s)" % hexs(e[1])
+    if k == "paren":
+        return "(RootNode)" if e[1] is None else "(RootNode %s)" % tree_of(e[1])
+    if k == "pre":
+        return "(%s %s)" % ("Neg" if e[1] == "-" else "Not", tree_of(e[2]))
+    if k == "call":
+        return "(Fn:%s %s)" % (hexs(e[1]), tree_of(e[2]))
+    if k == "bin":
+        return "(%s %s %s)" % (BIN_NAME[e[1]], tree_of(e[2]), tree_of(e[3]))
+    if k == "asg":
+        return "(%s (Write:%s) %s)" % (ASG_NAME[e[1]], hexs(e[2]), tree_of(e[3]))
+    if k == "tuple":
+        return "(Tuple %s)" % " ".join(elem_root(x) for x in e[1])
+    if k == "chain":
+        return "(Chain %s)" % " ".join(tree_of(x) if (x is not None and x[0] == "tuple") else elem_root(x) for x in e[1])
+    raise ValueError(k)
+
+
+def elem_root(x):
+    return "(RootNode)" if x is None else "(RootNode %s)" % tree_of(x)
+
+
+def tree_of_top(e):
+    return "(RootNode %s)" % tree_of(e)
+
+
+IDENTS = ["a", "b", "c", "x", "y", "foo", "_z", "a1"]
+FUNCS = ["f", "g", "h", "min", "max", "len", "typeof", "str::from", "math::abs"]
+
+
+def rand_lit(r):
+    k = r.random()
+    if k < 0.45:
+        i = r.choice([0, 1, 2, 3, 7, 10, 42, 255, 2 ** 31, I64_MAX]) if r.random() < 0.8 else r.randint(0, 10 ** 6)
+        return ("lit", str(i), vI(i))
+    if k < 0.65:
+        f = r.choice([0.5, 1.5, 2.0, 2.5, 0.1, 10.0, 1e3, 1e-3, 123.456])
+        txt = r.choice([repr(f), "%.3f" % f, ("%e" % f), ("%E" % f).replace("E+0", "E").replace("E-0", "E-")]) if r.random() < 0.5 else repr(f)
+        try:
+            val = float(txt)
+        except ValueError:
+            txt, val = repr(f), f
+        return ("lit", txt, vF(fbits(val)))
+    if k < 0.8:
+        b = r.random() < 0.5
+        return ("lit", "true" if b else "false", vB(b))
+    s = r.choice(["", "a", "b c", "x+y", "//", "/* */", "ä€", "1", ";", ","])
+    return ("lit", '"' + s.replace("\\", "\\\\").replace('"', '\\"') + '"', vS(s))
+
+
+def rand_expr(r, depth, allow_asg=True, allow_seq=True):
+    if depth <= 0 or r.random() < 0.18:
+        return rand_lit(r) if r.random() < 0.6 else ("var", r.choice(IDENTS))
+    k = r.random()
+    if k < 0.5:
+        return ("bin", r.choice(BINOPS), rand_expr(r, depth - 1, allow_asg, allow_seq), rand_expr(r, depth - 1, allow_asg, allow_seq))
+    if k < 0.62:
+        return ("pre", r.choice(UNOPS), rand_expr(r, depth - 1, allow_asg, allow_seq))
+    if k < 0.74:
+        return ("call", r.choice(FUNCS), rand_expr(r, depth - 1, allow_asg, allow_seq))
+    if k < 0.84 and allow_asg:
+        return ("asg", r.choice(ASSIGNOPS), r.choice(IDENTS), rand_expr(r, depth - 1, allow_asg, allow_seq))
+    if k < 0.92:
+        if r.random() < 0.1:
+            return ("paren", None)
+        return ("paren", rand_expr(r, depth - 1, allow_asg, allow_seq))
+    if allow_seq:
+        return ("paren", rand_seq(r, depth - 1, allow_asg))
+    return ("paren", rand_expr(r, depth - 1, allow_asg, allow_seq))
+
+
+def rand_elem(r, depth, allow_asg):
+    if r.random() < 0.12:
+        return None
+    return rand_expr(r, depth, allow_asg, True)
+
+
+def rand_seq(r, depth, allow_asg=True):
+    k = r.random()
+    if k < 0.4:
+        return ("tuple", [rand_elem(r, depth, allow_asg) for _ in range(r.randint(2, 4))])
+    if k < 0.7:
+        return ("chain", [rand_elem(r, depth, allow_asg) for _ in range(r.randint(2, 4))])
+    elems = []
+    for _ in range(r.randint(2, 4)):
+        if r.random() < 0.5:
+            elems.append(("tuple", [rand_elem(r, depth, allow_asg) for _ in range(r.randint(2, 3))]))
+        else:
+            elems.append(rand_elem(r, depth, allow_asg))
+    return ("chain", elems)
+
+
+def add_redundant_parens(r, e, p=0.15):
+    """wraps random sub-expressions in redundant parentheses (the meaning of the tree does not change)"""
+    if e is None:
+        return None
+    k = e[0]
+    if k in ("tuple", "chain"):
+        return (k, [add_redundant_parens(r, x, p) for x in e[1]])
+    if k == "lit" or k == "var":
+        out = e
+    elif k == "paren":
+        out = ("paren", add_redundant_parens(r, e[1], p))
+    elif k == "pre":
+        out = ("pre", e[1], add_redundant_parens(r, e[2], p))
+    elif k == "call":
+        out = ("call", e[1], add_redundant_parens(r, e[2], p))
+    elif k == "bin":
+        out = ("bin", e[1], add_redundant_parens(r, e[2], p), add_redundant_parens(r, e[3], p))
+    else:
+        out = ("asg", e[1], e[2], add_redundant_parens(r, e[3], p))
+    if r.random() < p:
+        out = ("paren", out)
+    return out
+
+
+# ---- separators (C07) ----
+WHITESPACE = [0x9, 0xA, 0xB, 0xC, 0xD, 0x20, 0x85, 0xA0, 0x1680, 0x2000, 0x2001, 0x2002, 0x2003, 0x2004, 0x2005, 0x2006,
+              0x2007, 0x2008, 0x2009, 0x200A, 0x2028, 0x2029, 0x202F, 0x205F, 0x3000]
+WORD_START = None
+
+
+def is_word(tok):
+    return tok and tok[0] not in "+-*/%^=!<>&|(),;\"" 
+
+
+def fuses(t1, t2):
+    """would the two token texts fuse when written without a separator"""
+    if is_word(t1) and is_word(t2):
+        return True
+    if t1 in ("+", "-", "*", "/", "%", "^", "=", "!", ">", "<", "&&", "||") and t2.startswith("="):
+        return True
+    if t1 == "/" and (t2.startswith("/") or t2.startswith("*")):
+        return True
+    if t1 in ("&", "|"):
+        return True
+    return False
+
+
+def sci_risk(t1, t2, t3):
+    """t1 t2 t3 written without separators might be read as one scientific literal"""
+    return is_word(t1) and t2 in ("+", "-") and is_word(t3) and t1[-1:] in "eE"
+
+
+def rand_separator(r, must, after_slash, comments=True):
+    """a separator text; `must`: non-empty required"""
+    items = []
+    n = r.choice([0, 1, 1, 1, 2, 3]) if not must else r.choice([1, 1, 2, 3])
+    for i in range(n):
+        k = r.random()
+        if k < 0.6 or not comments or (i == 0 and after_slash):
+            items.append(chr(r.choice(WHITESPACE)) if r.random() < 0.5 else " ")
+        elif k < 0.85:
+            body = r.choice(["", "c", " x + 1 ", "*", "/", "**", "\"", "a*b", "//"])
+            items.append("/*" + body + "*/")
+        else:
+            body = r.choice(["", " note", "/* x", "\"", "1 + 2"])
+            items.append("//" + body + "\n")
+    return "".join(items)
+
+
+def render(tokens, r=None, style="space", comments=True):
+    """joins token texts; style: space | tight (no separator where legal) | random"""
+    if style == "space" or r is None:
+        return " ".join(tokens)
+    out = []
+    for i, t in enumerate(tokens):
+        if i:
+            must = fuses(tokens[i - 1], t)
+            if i + 1 < len(tokens) and sci_risk(tokens[i - 1], t, tokens[i + 1]):
+                must = True
+            if i >= 2 and sci_risk(tokens[i - 2], tokens[i - 1], t) and not out[-2]:
+                must = True
+            if style == "tight":
+                sep = " " if must else ""
+            else:
+                sep = rand_separator(r, must, tokens[i - 1] == "/", comments)
+            out.append(sep)
+        out.append(t)
+    return "".join(out)
